@@ -63,8 +63,8 @@ func (c *c35Channel) Recv(ctx context.Context, handler func(m net.Message)) {
 	c.recvs = append(c.recvs, c35Recv{ctx, handler})
 	c.mu.Unlock()
 }
-func (c *c35Channel) SetUnmarshaler(func() net.TaggedUnmarshaler)  {}
-func (c *c35Channel) SetFilter(net.BroadcastChannelFilter) error { return nil }
+func (c *c35Channel) SetUnmarshaler(func() net.TaggedUnmarshaler) {}
+func (c *c35Channel) SetFilter(net.BroadcastChannelFilter) error  { return nil }
 
 // deliver hands the message to every receiver whose context is still live
 // (the real channel unregisters a handler when its context is done).
@@ -447,8 +447,8 @@ type c35Outcome struct {
 
 // c35Run executes one history against the real signingDoneCheck.
 // before = number of events delivered (and processed) before waitUntilAllDone
-// starts; the rest arrives while it polls, in chunks separated by pauses of
-// `pauses[i]` poll iterations.
+// starts; the rest arrives while it polls, in chunks of `chunk` messages,
+// optionally separated by one poll iteration.
 func c35Run(c c35Case, before int, chunk int, pauseEvery bool) c35Outcome {
 	pool := c35Operators
 	var operators []chain.Address
@@ -458,10 +458,6 @@ func c35Run(c c35Case, before int, chunk int, pauseEvery bool) c35Outcome {
 	ch := &c35Channel{}
 	validator := group.NewMembershipValidator(&testutils.MockLogger{}, operators, c35Signing)
 	dc := newSigningDoneCheck(c.n, ch, validator)
-
-	root, cancelRoot := context.WithCancel(context.Background())
-	defer cancelRoot()
-	dc.listen(root, big.NewInt(c.message), c.attempt, c.timeout, append([]group.MemberIndex{}, c.included...))
 
 	toMsg := func(e c35Event) *c35Msg {
 		m := &c35Msg{pub: pool[e.keyOf].pub}
@@ -486,6 +482,10 @@ func c35Run(c c35Case, before int, chunk int, pauseEvery bool) c35Outcome {
 		ch.deliver(&c35Msg{pub: pool[11].pub, payload: &c35OtherPayload{}, onPayload: func() { once.Do(func() { close(done) }) }})
 		return done
 	}
+
+	root, cancelRoot := context.WithCancel(context.Background())
+	defer cancelRoot()
+	dc.listen(root, big.NewInt(c.message), c.attempt, c.timeout, append([]group.MemberIndex{}, c.included...))
 
 	for _, e := range c.events[:before] {
 		ch.deliver(toMsg(e))
